@@ -821,7 +821,9 @@ func (s *TxStore) Rollback(tx mwdb.DBTransaction, height uint64) error {
 							})
 					} else {
 						if curHeight > 0 && readAddressHeight(addrVal) == curHeight {
-							err = deleteRawAddressRecord(nsAddresses, addrKey)
+							// back to "issued but unused": the address stays listed
+							addrRec.blockHeight = 0
+							err = putRawAddressRecord(nsAddresses, addrKey, valueAddressRecord(addrRec))
 							if err != nil {
 								return err
 							}
@@ -1038,7 +1040,9 @@ func (s *TxStore) Rollback(tx mwdb.DBTransaction, height uint64) error {
 						})
 				} else {
 					if curHeight > 0 && readAddressHeight(addrVal) == curHeight {
-						err = deleteRawAddressRecord(nsAddresses, addrKey)
+						// back to "issued but unused": the address stays listed
+						addrRec.blockHeight = 0
+						err = putRawAddressRecord(nsAddresses, addrKey, valueAddressRecord(addrRec))
 						if err != nil {
 							return err
 						}
